@@ -328,6 +328,10 @@ func runC10(c *harness.Case) {
 			cand = append(cand, harness.Prefix+"/"+string(k))
 		}
 	}
+	// keys that merely extend another stored key (their records follow that key's records directly)
+	for i := 0; i < 2 && i < len(cand); i++ {
+		cand = append(cand, cand[i]+"-1", cand[i]+"/x")
+	}
 	var eng *harness.Engine
 	var bkv storage.KvStorage
 	switch c.Index % 3 {
@@ -427,6 +431,46 @@ func runC10(c *harness.Case) {
 			return
 		}
 		c.Stat("list_ranges_checked", 1)
+	}
+	// the same reads at an older revision, after half of the keys got newer versions (a scan then meets versions it has
+	// to pass over; whatever it does to pass over them must stay inside that one raw key - also when the next raw key
+	// merely extends it): every key existed at R0, so the sets are the same as before
+	if c.Index%2 == 1 && len(bkeys) > 1 {
+		R0 := n.Committed()
+		for _, k := range bkeys {
+			if r.Intn(2) == 0 || strings.HasSuffix(k, "-1") || strings.HasSuffix(k, "/x") {
+				continue
+			}
+			if g, gerr := n.Get(k, 0); gerr == nil && g.Kv != nil {
+				n.Do(harness.SeqOp{Kind: "update", Key: k, Val: []byte("w"), Exp: g.Kv.Revision})
+			}
+		}
+		n.WaitCommitted(n.Dealt(), 30e9)
+		for i := 0; i < 20; i++ {
+			k := bkeys[r.Intn(len(bkeys))]
+			p := []byte(k[:len(harness.Prefix)+1+r.Intn(len(k)-len(harness.Prefix))])
+			if i == 0 {
+				p = []byte(harness.Prefix + "/")
+			}
+			resp, err := n.B.List(harness.Ctx, &proto.RangeRequest{Key: p, End: backend.PrefixEnd(p), Revision: R0})
+			if err != nil {
+				continue
+			}
+			var want, got []string
+			for _, k := range bkeys {
+				if bytes.HasPrefix([]byte(k), p) {
+					want = append(want, k)
+				}
+			}
+			for _, kv := range resp.Kvs {
+				got = append(got, string(kv.Key))
+			}
+			if !eqStr(got, want) {
+				c.Violatef("C10 prefix-bounds-enclose-wrong-set via=Backend.List at=older-revision", map[string]interface{}{"prefix": fmt.Sprintf("%q", p), "revision": R0}, "List(%q, PrefixEnd, revision %d) returned %q after some keys got newer versions; the keys with that prefix at that revision are %q", p, R0, got, want)
+				return
+			}
+			c.Stat("list_prefix_checked_at_an_older_revision", 1)
+		}
 	}
 	// the coder is called from every request goroutine at once: concurrent round trips of short and long keys (encoding
 	// is a pure function; a result must not depend on who else is encoding)
